@@ -1,5 +1,5 @@
 SPECIFICATION Spec
-CONSTANTS MaxRows = 5 NSpec = 3 NKey = 2 NLev = 1 MaxRank = 3
+CONSTANTS MaxRows = 4 NSpec = 3 NKey = 3 NLev = 1 MaxRank = 4
   AsIs_ChunkDedupOnRollup = FALSE Mut_SeenBeforeCompetition = FALSE Mut_MergeSmallestHead = FALSE
 INVARIANT PsmLevelOK
 INVARIANT RollupLevelsOK
